@@ -76,7 +76,7 @@ class CanDynamicSchema: public ICanSchema {
     }
 
     private:
-        std::optional<std::string> GetMsgName(std::uint16_t sid, const std::array<char,4> bus_name) {
+        std::optional<std::string> GetMsgName(std::uint32_t sid, const std::array<char,4> bus_name) {
             std::string bus_name_str(bus_name.data(), strnlen(bus_name.data(), bus_name.size()));
 
             auto impls = dynamic_schema_.GetImpls();
@@ -97,7 +97,7 @@ class CanDynamicSchema: public ICanSchema {
             return std::nullopt;
         }
 
-        std::optional<std::uint16_t> GetId(std::string msg_name) {
+        std::optional<std::uint32_t> GetId(std::string msg_name) {
             auto impls = dynamic_schema_.GetImpls();
             for (const auto& impl: impls) {
                 if (impl.protocol != "can") {
